@@ -157,6 +157,34 @@ def _l4_tags(n: int, d0: bool, d1: bool, d2: bool, d3: bool, cap: int) -> bool:
     return True
 
 
+def _l5_cap(n: int, u0: int, u1: int, u2: int, u3: int, cap: int, pooling: int) -> bool:
+    """
+    pre: 2 <= n <= 4
+    pre: 0 <= u0 <= 1 and 0 <= u1 <= 1 and 0 <= u2 <= 1 and 0 <= u3 <= 1
+    pre: 1 <= cap <= 2
+    pre: 0 <= pooling <= 1
+    post: _
+    """
+    # fragments of one cell / site / strand with UMI AAA or CCC (distance 3) arriving in any order, molecules capped at `cap` fragments
+    us = [pick([0, 2], u) for u in [u0, u1, u2, u3][:n]]
+    frags = _frags(n, [(0, 0, u, False) for u in us], 0)
+    it = MoleculeIterator([[f.reads[0], None] for f in frags], molecule_class=NlaIIIMolecule, fragment_class=NlaIIIFragment,
+                          fragment_class_args={'umi_hamming_distance': 0}, molecule_class_args={'max_associated_fragments': cap},
+                          perform_qflag=False, pooling_method=pooling, check_eject_every=None, yield_overflow=True)
+    mols = list(it)
+    got = sorted((sorted(int(fr.reads[0].query_name[1:]) for fr in m), len(m.fragments) + m.overflow_fragments) for m in mols)
+    exp = []
+    for u in (0, 2):
+        members = [i for i in range(n) if us[i] == u]
+        if not members:
+            continue
+        kept, over = members[:cap], members[cap:]
+        exp.append((kept, len(kept) + len(over)))          # TF of the capped molecule counts its overflow
+        for i in over:
+            exp.append(([i], 1))                           # every overflow fragment is emitted alone
+    return got == sorted(exp)
+
+
 _T = {'quick': 240, 'thorough': 1200}
 LEMMAS = [
     dict(name='L1_nla_pairwise', fn='_l1_nla_pair', engine='E1', timeout=_T, replay='replay.C06:replay',
@@ -171,6 +199,8 @@ LEMMAS = [
                           for n in (1, 2) for d in (0, 1) for p in (0, 1)] +
                          [dict(id='n3_d%d_p%d_s%d' % (d, p, s), pre=['n == 3', 'd == %d' % d, 'pooling == %d' % p, 's0 == %d' % s, 'r0 == False', 'r1 == False', 'r2 == False', 'c0 == 0', 'c1 == 0', 'c2 <= 1']) for d in (0, 1) for p in (0, 1) for s in (0, 1)],
                 'thorough': [dict(id='n3_d%d_p%d_s%d_c%d_r%d' % (d, p, s, c, r), pre=['n == 3', 'd == %d' % d, 'pooling == %d' % p, 's0 == %d' % s, 'c0 == %d' % c, 'r0 == %s' % bool(r)]) for d in (0, 1) for p in (0, 1) for s in (0, 1) for c in (0, 1) for r in (0, 1)]}),
+    dict(name='L5_fragment_cap', fn='_l5_cap', engine='E1', timeout=_T, replay='replay.C06:replay',
+         cases={'quick': [dict(id='cap%d_p%d' % (c, p), pre=['cap == %d' % c, 'pooling == %d' % p]) for c in (1, 2) for p in (0, 1)]}),
     dict(name='L4_duplicate_rank_tags', fn='_l4_tags', engine='E1', timeout=_T, replay='replay.C06:replay'),
 ]
 
@@ -179,7 +209,7 @@ PROPERTY = dict(
                'molecule.Molecule.__init__/add_fragment/_add_fragment/write_tags', 'molecule.NlaIIIMolecule._add_fragment/write_tags', 'molecule.iterator.MoleculeIterator'],
     bounds=dict(pairwise='two fragments: UNBOUNDED site coordinates, clips 0..6, both strands, 2 cells, arbitrary UMIs of length <= 2 with clips 0..2 (thorough: <= 3, clips 0..6) (CHIC: pool of 3 UMIs; plain: pool of 4 incl. N and unequal length), hamming 0..2, radius 0 and unbounded',
                 grouping='<=3 NLA fragments with site / cell / UMI / strand from pools (2 sites, 2 cells, 3 UMIs at distance 1 or 3), hamming 0/1, both pooling methods',
-                tags='molecule of 1..4 fragments with arbitrary initial duplicate flags, max-fragments cap 1..4 or none, write_tags twice'),
+                cap='2..4 fragments of two UMIs at one site in any arrival order, cap 1..2, both pooling methods', tags='molecule of 1..4 fragments with arbitrary initial duplicate flags, max-fragments cap 1..4 or none, write_tags twice'),
     outside=['sequencing-error / soft-clip realism of a simulator (the solver ranges over all geometries instead)', 'allele-split molecules', 'paired-end R2 ends (single R1 fragments are used)',
              'transitivity chains longer than 3 fragments'],
     assumptions=['UMI distance is the package\'s documented one (N matches anything; sequtils.hamming_distance)', 'FakeRead models pysam.AlignedSegment',
